@@ -208,7 +208,12 @@ func buildQueryGoal(prelude string, ob *Obligation, goal Term) string {
 	var sb strings.Builder
 	sb.WriteString("; obligation " + ob.Name + " in " + ob.Fn + "\n")
 	sb.WriteString(prelude)
+	seen := map[string]bool{}
 	for _, p := range ob.PC {
+		if seen[p.S] {
+			continue
+		}
+		seen[p.S] = true
 		sb.WriteString("(assert ")
 		sb.WriteString(p.S)
 		sb.WriteString(")\n")
@@ -224,7 +229,12 @@ func buildQuery(e *Enc, prelude string, ob *Obligation) string {
 		sb.WriteString("; " + strings.ReplaceAll(ob.Src, "\n", " ") + "\n")
 	}
 	sb.WriteString(prelude)
+	seen := map[string]bool{}
 	for _, p := range ob.PC {
+		if seen[p.S] {
+			continue
+		}
+		seen[p.S] = true
 		sb.WriteString("(assert ")
 		sb.WriteString(p.S)
 		sb.WriteString(")\n")
